@@ -36,7 +36,7 @@ func H_C01_checkTB() {
 	p := newVProg("p", k, 0, alpha, nil)
 	p.maxInv = 2
 	if thorough() {
-		p.maxInv = 4
+		p.maxInv = 3
 	}
 	flags.nofailfile = true
 	flags.seed = 0
